@@ -86,11 +86,18 @@ def history(seed, length, ncoll=3, nkeys=12, nvals=6):
                     log("cget", c, exc_name(e), k=k, val="")
             else:
                 cm = cms.pop(c)
-                try:
-                    cm.__exit__(None, None, None)
-                    log("end", c, "ok")
-                except Exception as e:
-                    log("end", c, exc_name(e))
+                if rnd.random() < 0.3:
+                    try:
+                        swallowed = cm.__exit__(RuntimeError, RuntimeError("caller's exception"), None)
+                        log("endexc", c, "exception swallowed" if swallowed else "ok")
+                    except Exception as e:
+                        log("endexc", c, exc_name(e))
+                else:
+                    try:
+                        cm.__exit__(None, None, None)
+                        log("end", c, "ok")
+                    except Exception as e:
+                        log("end", c, exc_name(e))
         for c in list(cms):
             cm = cms.pop(c)
             try:
